@@ -372,7 +372,7 @@ func (c *c25State) step(i int, pool []string, kind string) bool {
 		var first []string
 		for j := 0; j < n; j++ {
 			r := c.genRow(fmt.Sprintf("%s.r%d", lb, j))
-			if j > 0 && keyless && rapid.IntRange(0, 2).Draw(rt, fmt.Sprintf("%s.dup%d", lb, j)) == 0 {
+			if j > 0 && keyless && rapid.IntRange(0, 1).Draw(rt, fmt.Sprintf("%s.dup%d", lb, j)) == 0 {
 				r = first
 			}
 			if j == 0 {
@@ -439,7 +439,11 @@ func (c *c25State) step(i int, pool []string, kind string) bool {
 		_ = c.exec(fmt.Sprintf("UPDATE t SET `%s` = `%s` + %d WHERE %s", pk, pk, rapid.IntRange(1, 12).Draw(rt, lb+".delta"), c.genPred(lb+".where")))
 	case "delete":
 		q := "DELETE FROM t WHERE " + c.genPred(lb+".where")
-		if rapid.IntRange(0, 3).Draw(rt, lb+".limit") == 0 {
+		limitOdds := 3
+		if keyless {
+			limitOdds = 1 // single copies of duplicated rows: the keyless index entry must survive
+		}
+		if rapid.IntRange(0, limitOdds).Draw(rt, lb+".limit") == 0 {
 			q += fmt.Sprintf(" LIMIT %d", rapid.IntRange(1, 3).Draw(rt, lb+".lim"))
 		}
 		_ = c.exec(q)
